@@ -99,10 +99,10 @@ type c12Path struct {
 	Name     string
 	Cap      int64 // bytes per second
 	RTT      time.Duration
-	Queue    int64 // FIFO bytes in front of the bottleneck (plus one packet in service)
-	AckEvery int   // receiver acknowledges every n-th packet (or after 25 ms, or at once on a gap)
-	QuicSize int64 // datagram size QUIC starts with
-	Seed     int64 // size handed to NewBbrSender = seedPacketSize(QuicSize, guess by address)
+	Queue    int64         // FIFO bytes in front of the bottleneck (plus one packet in service)
+	AckEvery int           // receiver acknowledges every n-th packet (or after 25 ms, or at once on a gap)
+	QuicSize int64         // datagram size QUIC starts with
+	Seed     int64         // size handed to NewBbrSender = seedPacketSize(QuicSize, guess by address)
 	Unit     time.Duration // duration of "1 RTT" in the macro-events (0: RTT)
 }
 
@@ -222,21 +222,21 @@ type c12Sim struct {
 	steps  int64
 
 	// observation
-	ackedBytes  int64
-	peakAllow   int64
-	maxSlots    int64
-	maxA0       int64
-	modeSeen    [4][3]int64
-	trans       []byte
-	lastMode    int
-	lossOnly    int64
-	ptos        int64
-	mtuRaises   int64
-	tailDrops   int64
-	sentPkts    int64
-	ackOnly     int64
-	atFloor     int64
-	atCeil      int64
+	ackedBytes int64
+	peakAllow  int64
+	maxSlots   int64
+	maxA0      int64
+	modeSeen   [4][3]int64
+	trans      []byte
+	lastMode   int
+	lossOnly   int64
+	ptos       int64
+	mtuRaises  int64
+	tailDrops  int64
+	sentPkts   int64
+	ackOnly    int64
+	atFloor    int64
+	atCeil     int64
 }
 
 func c12NewSim(path *c12Path, profile Profile, maxPkts int64) *c12Sim {
@@ -600,7 +600,7 @@ func (s *c12Sim) run(until int64) {
 		if s.clause != "" {
 			return
 		}
-		if s.stopEmpty && s.inflight == 0 {
+		if s.stopEmpty && s.inflight == 0 && s.sendCap <= 0 {
 			return
 		}
 		if s.untilPN >= 0 && (s.fh >= len(s.flight) || s.flight[s.fh].pn > s.untilPN) {
@@ -658,10 +658,47 @@ func (s *c12Sim) burstLoss() {
 	s.lastDep = s.now
 }
 
+// c12Ping: K request/response exchanges. In each the application has N packets to send, sends
+// them as the window and the pacer allow, then has nothing more until every one is acknowledged
+// (the connection goes fully idle: the ack of the LAST packet sent empties the pipe), waits Think
+// round trips, and starts the next exchange. Events of the loss-free part only (codes >= c12NEv),
+// not of the general macro-event alphabet. Added after the seeded change C12-5 (the sampler left
+// the application-limited phase on the ack of the packet that ended it, so a run of one-packet
+// exchanges counted as genuine bandwidth samples).
+type c12Ping struct {
+	K     int
+	N     int64
+	Think int
+}
+
+func (g c12Ping) name() string { return fmt.Sprintf("pingpong%dx%dpkt+%drtt", g.K, g.N, g.Think) }
+
+var c12Pings = []c12Ping{{3, 1, 0}, {5, 1, 0}, {12, 1, 0}, {30, 1, 0}, {12, 1, 1}, {12, 2, 0}, {12, 10, 0}, {30, 3, 1}}
+
+func (s *c12Sim) pingpong(g c12Ping) {
+	R := s.path.unit()
+	for i := 0; i < g.K && s.clause == "" && s.infra == ""; i++ {
+		s.hasData, s.sendCap, s.stopEmpty = true, g.N, true
+		s.run(s.now + int64(60*time.Second))
+		if s.sendCap > 0 && s.clause == "" && s.infra == "" {
+			s.infra = fmt.Sprintf("simulator: exchange %d did not complete within 60 s", i)
+		}
+		s.stopEmpty, s.sendCap, s.hasData = false, -1, false
+		if g.Think > 0 {
+			s.run(s.now + int64(g.Think)*R)
+		}
+	}
+}
+
 // macro executes one macro-event of the alphabet.
 func (s *c12Sim) macro(ev int) {
 	R := s.path.unit()
 	s.hasData, s.drop3, s.evSent, s.stopEmpty, s.sendCap = true, false, 0, false, -1
+	if ev >= c12NEv {
+		s.pingpong(c12Pings[ev-c12NEv])
+		s.hasData = true
+		return
+	}
 	switch ev {
 	case c12EvClean1:
 		s.run(s.now + R)
@@ -784,6 +821,7 @@ type c12Result struct {
 	shape                 string
 	sim                   *c12Sim
 	util                  float64
+	utilMinWin            float64 // lowest utilisation of a 40-RTT window after the first 40 RTT
 }
 
 func c12PathOf(i int) *c12Path {
@@ -799,6 +837,10 @@ func c12PathOf(i int) *c12Path {
 func c12SeqNames(seq []int) string {
 	n := make([]string, len(seq))
 	for i, e := range seq {
+		if e >= c12NEv {
+			n[i] = c12Pings[e-c12NEv].name()
+			continue
+		}
 		n[i] = c12EvNames[e]
 	}
 	return "[" + strings.Join(n, ",") + "]"
@@ -816,10 +858,27 @@ func c12Run(c *c12Case) (res c12Result) {
 		res.sim = s
 		if c.RTTs > 0 {
 			R := s.path.unit()
-			s.hasData = true
+			for _, e := range c.Prefix {
+				if s.clause != "" || s.infra != "" {
+					return
+				}
+				s.macro(e)
+			}
+			if s.clause != "" || s.infra != "" {
+				return
+			}
+			s.hasData, s.sendCap, s.stopEmpty = true, -1, false
 			s.run(s.now + 40*R)
 			mark := s.ackedBytes
-			s.run(s.now + int64(c.RTTs-40)*R)
+			res.utilMinWin = 10
+			for done := 40; done < c.RTTs && s.clause == "" && s.infra == ""; done += 40 {
+				n := min(40, c.RTTs-done)
+				m0 := s.ackedBytes
+				s.run(s.now + int64(n)*R)
+				if n == 40 {
+					res.utilMinWin = min(res.utilMinWin, float64(s.ackedBytes-m0)/(float64(s.path.Cap)*float64(40*R)/1e9))
+				}
+			}
 			res.util = float64(s.ackedBytes-mark) / (float64(s.path.Cap) * float64(int64(c.RTTs-40)*R) / 1e9)
 			return
 		}
